@@ -73,6 +73,9 @@ type spend = {
   mutable imsx : string option;   (* script outside the context's language, decoded with the restrictions lifted *)
   mutable verdict : string; mutable cons : string list;
   mutable policy : string;
+  mutable ftx : string list;                      (* from_txdata's real outcome *)
+  mutable decs : (string * bytes * string) list;  (* context, element, hash of the decoded miniscript's text *)
+  mutable fpk : (bytes * bool) list; mutable fxo : bytes list; mutable fcommit : bool;
 }
 
 let hash_lookup (c : case) (s : spend) kind (inp : bytes) : bytes =
@@ -389,7 +392,72 @@ let mk_class (mk : string) : string =
   else if String.length mk > 2 && mk.[1] = ':' then String.sub mk 2 (String.length mk - 2)
   else mk
 
+(* ------------------------------------------------------------------ from_txdata: model vs implementation
+   (coq/Ms/InterpTxdataModel.v extracted; parameters read from the harness's DEC / FPK / FXO / FCOMMIT /
+   HASH tables).  Compared: error class, or output kind + key bytes / the decoded text of the element
+   the model chose as script; the model's stack and script code against the stack the evaluator tie
+   runs on ([model_inputs]) and the script real execution runs ([inner]). *)
+let ferr_name = function
+  | FNonEmptyWitness -> "non_empty_witness" | FNonEmptyScriptSig -> "non_empty_script_sig"
+  | FUnexpectedStackEnd -> "stack_end" | FExpectedPush -> "expected_push" | FPubkeyParse -> "pubkey_parse"
+  | FUncompressedPubkey -> "uncompressed_pubkey" | FXOnlyParse -> "xonly_parse"
+  | FIncorrectPubkeyHash -> "incorrect_pubkey_hash" | FIncorrectWPubkeyHash -> "incorrect_wpubkey_hash"
+  | FIncorrectScriptHash -> "incorrect_script_hash" | FIncorrectWScriptHash -> "incorrect_wscript_hash"
+  | FTapAnnexUnsupported -> "annex" | FUnexpectedStackBoolean -> "stack_bool"
+  | FControlBlockParse -> "control_block_parse" | FControlBlockVerify -> "control_block_verify" | FDecode -> "decode"
+let pk_name = function PtPk -> "pk" | PtPkh -> "pkh" | PtWpkh -> "wpkh" | PtShWpkh -> "shwpkh" | PtTr -> "trkey"
+let sc_name = function StBare -> "bare" | StSh -> "sh" | StWsh -> "wsh" | StShWsh -> "shwsh" | StTr -> "tr"
+let ctx_name = function DBare -> "bare" | DLegacy -> "legacy" | DSegv0 -> "segv0" | DTap -> "tap"
+let ctx_of = function StBare -> DBare | StSh -> DLegacy | StWsh | StShWsh -> DSegv0 | StTr -> DTap
+
+let ftx_check (c : case) (s : spend) =
+  if s.ftx <> [] then begin
+    let e = mk_env c s s.sigok in
+    let fe = { f_dec = (fun cx b -> List.exists (fun (cn, bb, _) -> cn = ctx_name cx && bb = b) s.decs);
+               f_pk = (fun b -> List.assoc_opt b s.fpk);
+               f_xonly = (fun b -> List.mem b s.fxo);
+               f_commit = (fun _ _ -> s.fcommit) } in
+    let r = from_txdata e fe c.spk s.ssig s.wit in
+    let model = match r with
+      | FErr er -> "err " ^ ferr_name er
+      | FOk (InPk (k, t), _, _) -> "ok " ^ pk_name t ^ " " ^ hex_of_bytes k
+      | FOk (InScript (sb, t), _, _) ->
+        let h = (match List.find_opt (fun (cn, bb, _) -> cn = ctx_name (ctx_of t) && bb = sb) s.decs with
+            | Some (_, _, h) -> h | None -> "?") in
+        "ok " ^ sc_name t ^ " " ^ h in
+    let impl = String.concat " " s.ftx in
+    bump ("ftx/" ^ (match s.ftx with "err" :: cl :: _ -> "err:" ^ cl | "ok" :: k :: _ -> "ok:" ^ k | _ -> "panic"));
+    if model = impl then inc "ftx_eq"
+    else begin
+      inc "ftx_diff";
+      Printf.printf "DIFF ftx %s impl=[%s] model=[%s] ssig=%s wit=%s\n" (describe c s) impl model (hex_of_bytes s.ssig) (hexs s.wit)
+    end;
+    (match r with
+     | FOk (i, st, code) ->
+       (* the stack handed to the evaluator = the stack the evaluator tie runs the model of `iter` on *)
+       (match model_inputs c s with
+        | Some (_, _, items) ->
+          if astack_of_items items = st then inc "ftx_stack_eq"
+          else begin inc "ftx_diff"; Printf.printf "DIFF ftx-stack %s model-stack=%s tie-items=%s\n" (describe c s) (hexs (List.map conc st)) (hexs items) end
+        | None -> inc "ftx_stack_na");
+       (* script, stack and script code = what real execution runs (the specification driver's view) *)
+       (match i, inner c s with
+        | InScript (sb, t), Some (sv, sc, stk) ->
+          if sb = sc && List.map conc st = stk && code = Some sc && sv_of t = sv then inc "ftx_inner_eq"
+          else begin inc "ftx_diff"; Printf.printf "DIFF ftx-inner %s model-script=%s spec-script=%s\n" (describe c s) (hex_of_bytes sb) (hex_of_bytes sc) end
+        | InPk (k, (PtWpkh | PtShWpkh)), Some (_, sc, _) ->
+          if code = Some sc then inc "ftx_inner_eq"
+          else begin inc "ftx_diff"; Printf.printf "DIFF ftx-code %s spec-script=%s\n" (describe c s) (hex_of_bytes sc) end
+        | InPk (_, (PtPk | PtPkh)), _ ->
+          if code = Some c.spk then inc "ftx_inner_eq" else begin inc "ftx_diff"; Printf.printf "DIFF ftx-code %s\n" (describe c s) end
+        | InPk (_, PtTr), _ ->
+          if code = None then inc "ftx_inner_eq" else begin inc "ftx_diff"; Printf.printf "DIFF ftx-code %s\n" (describe c s) end
+        | _ -> inc "ftx_inner_na")
+     | FErr _ -> ())
+  end
+
 let handle_spend (c : case) (s : spend) =
+  ftx_check c s;
   inc "spends";
   let impl_ok = (s.verdict = "ok") in
   let vclass = if impl_ok then "ok" else s.verdict in
@@ -591,7 +659,7 @@ let () =
          let g = kv rest in
          sp := Some { sid; base = g "base"; mk = g "mk"; txv = int_of_string (g "txv"); lock = int_of_string (g "lock");
                       seq = int_of_string (g "seq"); ssig = []; wit = []; hashes = []; sigok = []; isigx = []; sighb = []; isign = [];
-                      tapok = true; ims = None; imsx = None; verdict = "?"; cons = []; policy = "-" }
+                      tapok = true; ims = None; imsx = None; verdict = "?"; cons = []; policy = "-"; ftx = []; decs = []; fpk = []; fxo = []; fcommit = false }
        | "SS" :: s :: _ -> ups (fun x -> x.ssig <- bytes_of_hex s)
        | "WI" :: _ :: items -> ups (fun x -> x.wit <- List.map bytes_of_hex items)
        | "HASH" :: kind :: i :: o :: _ ->
@@ -611,6 +679,11 @@ let () =
        | "IMS" :: rest -> ups (fun x -> x.ims <- Some (String.concat " " rest))
        | "IMSX" :: rest -> ups (fun x -> x.imsx <- Some (String.concat " " rest))
        | "IMPL" :: v :: _ :: cons -> ups (fun x -> x.verdict <- v; x.cons <- cons)
+       | "FTX" :: rest -> ups (fun x -> x.ftx <- rest)
+       | "DEC" :: cx :: b :: h :: _ -> ups (fun x -> x.decs <- (cx, bytes_of_hex b, h) :: x.decs)
+       | "FPK" :: k :: v :: _ -> ups (fun x -> x.fpk <- (bytes_of_hex k, v = "1") :: x.fpk)
+       | "FXO" :: k :: _ -> ups (fun x -> x.fxo <- bytes_of_hex k :: x.fxo)
+       | "FCOMMIT" :: v :: _ -> ups (fun x -> x.fcommit <- (v = "1"))
        | "POLICY" :: v :: _ -> ups (fun x -> x.policy <- v)
        | "ENDSP" :: _ ->
          (match !cur, !sp with
@@ -629,7 +702,8 @@ let () =
     ["spends"; "both_accept"; "false_accept"; "impl_stricter"; "false_reject"; "out_of_language"; "refutation_reproduced";
      "out_of_language_model_accepts"; "out_of_language_model_other"; "out_of_language_model_na"; "lib_sane"; "lib_sane_valid"; "incomplete";
      "constraints_checked"; "constraints_bad"; "constraints_no_trace"; "policy_ok"; "policy_bad";
-     "model_eq"; "model_diff"; "model_na"; "panic"; "driver_exn"];
+     "model_eq"; "model_diff"; "model_na"; "panic"; "driver_exn";
+     "ftx_eq"; "ftx_diff"; "ftx_stack_eq"; "ftx_stack_na"; "ftx_inner_eq"; "ftx_inner_na"];
   print_newline ();
   Hashtbl.iter (fun k v -> Printf.printf "HIST %s %d\n" k v) hist;
   List.iter (fun s -> Printf.printf "SAMPLE %s\n" s) (List.rev !samples)
